@@ -51,7 +51,8 @@ def handler_covers(handler, exc):
 THROWING_APIS = [
     (r"^std::sto(i|l|ll|ul|ull|f|d|ld)$", "text", "std::invalid_argument|std::out_of_range"),
     (r"^std::(vector|basic_string|array|deque|map|unordered_map)::at$", "absent", "std::out_of_range"),
-    (r"^std::basic_string::substr$", "absent", "std::out_of_range"),
+    (r"^std::basic_string::substr$", "strpos", "std::out_of_range"),
+    (r"^Oomd::CgroupPath::getParent$", "absent", "std::invalid_argument"),
     (r"^std::optional::value$", "absent", "std::bad_optional_access"),
     (r"^Oomd::SystemMaybe::(value|operator\*|operator->)$", "absent", "std::bad_variant_access"),
     (r"^Oomd::SystemMaybe::error$", "absent", "std::bad_variant_access"),
@@ -65,7 +66,7 @@ THROWING_APIS = [
     (r"^std::chrono::.*", None, None),
 ]
 # functions of the library that are treated as primitives (not descended into)
-PRIMITIVES = re.compile(r"^Oomd::SystemMaybe::(value|operator\*|operator->|error)$")
+PRIMITIVES = re.compile(r"^Oomd::(SystemMaybe::(value|operator\*|operator->|error)|CgroupPath::getParent)$")
 # json accessors that only throw on a shape mismatch of a *present* value
 _JSON_SAFE = {"isString", "isBool", "isNumeric", "isObject", "isArray", "isNull", "isMember", "isInt",
               "isConvertibleTo", "empty", "type"}
@@ -151,6 +152,8 @@ class Escape:
             if rn["k"] in ("call", "construct") and rn.get("cname") not in ("operator*", "operator->", "get", "value"):
                 return False       # fresh call result: never guarded
             return (obj, want) in g
+        if callee == "Oomd::CgroupPath::getParent":
+            return ("%s.isRoot()" % obj, False) in g
         if last == "at" and callee.startswith(("std::map", "std::unordered_map")):
             key = f.text(n["args"][0]) if n.get("args") else "?"
             for k, p in g:
